@@ -462,7 +462,12 @@ PROPS['C18'] = {
     'module': 'SuironVerif.Props.C18',
     'theorems': ['Suiron.C18.term_parsers_never_panic', 'Suiron.C18.parse_term_never_panics', 'Suiron.C18.parse_arguments_never_panics',
                  'Suiron.C18.parse_linked_list_never_panics', 'Suiron.C18.parse_complex_never_panics', 'Suiron.C18.parse_function_never_panics',
-                 'Suiron.C18.parse_query_never_panics', 'Suiron.C18.parse_subgoal_never_panics', 'Suiron.C18.tokenize_never_panics_partial'],
+                 'Suiron.C18.parse_query_never_panics', 'Suiron.C18.parse_subgoal_never_panics', 'Suiron.C18.tokenize_never_panics_partial',
+                 'Suiron.C18.parse_term_terminates', 'Suiron.C18.parse_arguments_terminates', 'Suiron.C18.parse_linked_list_terminates',
+                 'Suiron.C18.parse_complex_terminates', 'Suiron.C18.parse_function_terminates', 'Suiron.C18.parse_query_terminates',
+                 'Suiron.C18.parse_subgoal_terminates', 'Suiron.C18.tokenize_terminates', 'Suiron.C18.group_tokens_terminates',
+                 'Suiron.C18.generate_goal_terminates', 'Suiron.C18.parse_rule_terminates', 'Suiron.C18.parse_rule_outcome_unique',
+                 'Suiron.C18.parse_term_outcome_unique'],
     'oracles': ['C18'],
     'suites': {
         'quick': parse_runs('C18', [('grammar', 3000, None), ('mutate', 8000, None), ('mutate', 8000, None), ('random', 8000, None),
@@ -473,9 +478,11 @@ PROPS['C18'] = {
     'exhaustive_in': {'quick': True, 'thorough': True},
     'rule': P_RULE, 'design_ref': '5.18',
     'assumptions': ["PARTIAL: proved for the term-level parsers, parse_query, parse_subgoal and the tokenizer (every index, slice, unwrap and panic! of the Rust code is an "
-                    "explicit panic branch of the model, shown unreachable for every input); the token grouping stage of generate_goal / parse_rule and the sufficiency "
-                    "of a fuel linear in the input length (termination) are not proved and are decided by the correspondence suite and the no-panic oracle",
-                    "oracle on the implementation: every call returns Ok or Err (catch_unwind per call; a watchdog turns a call that does not return within 6 s into an abort)",
+                    "explicit panic branch of the model, shown unreachable for every input); TERMINATION is proved for all eight entry points (the model's out-of-fuel "
+                    "outcome is impossible: 3|s|+3 units of fuel for parse_term, 3|s|+4 for parse_subgoal, some fuel for generate_goal / parse_rule; the outcome does "
+                    "not depend on the fuel); that the token grouping stage of generate_goal / parse_rule never PANICS is not proved and is decided by the "
+                    "correspondence suite and the no-panic oracle; the fuel bounds recursion depth, not work: polynomial time is decided by the timed deep-nesting cases (D18)",
+                    "oracle on the implementation: every call returns Ok or Err (catch_unwind per call; goals and rules with parentheses nested 24-31 deep must come back within a second; a watchdog turns a call that does not return within 20 s into an abort)",
                     "float parsing (str::parse::<f64>) and char::is_alphabetic are parameters of the model; the driver supplies an exact decimal-to-double conversion and the "
                     "Unicode classification for Latin, Greek and Cyrillic letters; the generators stay inside that alphabet"],
 }
@@ -494,7 +501,7 @@ PROPS['C19'] = {
                     "the same text and re-parse to the same value, and the model's parser and printer must agree with the implementation's on every case",
                     "canonical text = what the printer writes: comparisons in their named form (less_than(a, b)), zero-arity terms as f(), conjunctions inside disjunctions "
                     "without parentheses; floats are taken from a set whose shortest decimal form is exact",
-                    "known finding F2 (open): parenthesised groups nested inside parenthesised groups are mis-grouped by group_tokens()"],
+                    "parenthesised groups nested inside each other (to depth 3) are part of the grammar stream since repair D18 (former finding F2)"],
 }
 PROPS['C20'] = {
     'module': 'SuironVerif.Props.C20',
@@ -545,11 +552,14 @@ NOT_APPLICABLE = {
 LEVEL_TEXT = {
     'C18': 'PARTIAL proof: every index, slice, unwrap and panic! of the parser is an explicit panic outcome of the Lean model; proved unreachable, for every input string, '
            'every fuel and every instance of the std parameters, for parse_term / parse_arguments / parse_linked_list / parse_complex / parse_function / parse_query / '
-           'parse_subgoal and for the tokenizer. The token grouping stage of generate_goal / parse_rule and termination within a fuel linear in the input are not proved; '
-           'they are decided by the correspondence suite (random, mutated, documented-spelling and ALL short strings through all eight entry points) and the no-panic oracle.',
+           'parse_subgoal and for the tokenizer. TERMINATION is proved for all eight entry points: the out-of-fuel outcome of the model is impossible (3|s|+3 units of fuel '
+           'for parse_term, 3|s|+4 for parse_subgoal, some fuel for generate_goal and parse_rule), and every parser is monotone in its fuel, so the outcome does not depend '
+           'on it. Not proved: that the token grouping stage of generate_goal / parse_rule never panics; the fuel bounds recursion depth, not work. Both are decided by '
+           'the correspondence suite (random, mutated, documented-spelling and ALL short strings through all eight entry points, timed deep-nesting cases) and the '
+           'no-panic oracle. The work on termination exposed defect D18 (exponential time on nested parentheses), repaired.',
     'C19': 'PARTIAL proof: the printer model is proved to parenthesise exactly the nested operators the parser would regroup and to lay out rules and unifications as '
            'documented; parse(show v) = v is proved for token-level terms. The round trip for structured terms, goals and rules is decided by the grammar stream on the '
-           'implementation, with the model parser and printer compared on every case. One open known finding (F2: nested parenthesised groups).',
+           'implementation, with the model parser and printer compared on every case. Nested parenthesised groups are generated since repair D18 (former finding F2).',
     'C20': 'PARTIAL proof: for every token text (no blanks, none of [ ] ( ) , " \\ |: atoms, signed numbers, variables, $_) all five contexts - alone, argument, list element, '
            'infix operand, query argument - are proved to hand the text to the same make_term with the same classification flags, so they yield the same term, for every '
            'fuel. Structured texts are decided by the contexts stream. One open known finding (F3: arithmetic infix as an argument).',
